@@ -51,7 +51,7 @@ def _dims(d):
         "bias": ["auto", "mean", False, True, "scalar"],
         "bank": ["B", "C2"],
         "flags": ["torus", "open", "mixed"],
-        "ext": [[4] * d, [4] * (d - 1) + [8]],
+        "ext": [[4] * d, [4] * (d - 1) + [8], [6] * d],  # 6: smaller than the largest dilation (8) of the dilated ResNet
         "sigma": [0.3, 0.1],
     }
 
@@ -110,6 +110,8 @@ def enabled(c):
     in_sig, out_sig = MD.SIGS2[c["sig"]]
     if c["norm"] and any(kp[0] > 1 for kp, _ in in_sig + out_sig):
         return False
+    if c["cls"] == "UNet" and any(e % (2 ** c["size"]) for e in c["ext"]):
+        return False  # the extent must be compatible with the architecture's pooling
     return True
 
 
